@@ -67,15 +67,20 @@ def write_evidence(pid, tier, seed, level, coverage, assumptions, wall, violatio
     with open(tmp, "w") as f:
         json.dump(ev, f, indent=1, sort_keys=True, default=repr)
     os.replace(tmp, path)
-    try:
-        import jsonschema
-        with open("/root/.vp/EVIDENCE.schema.json") as f:
-            jsonschema.validate(ev, json.load(f))
-    except ImportError:
-        pass
-    except FileNotFoundError:
-        pass
+    validate_evidence(path)
     return path
+
+
+def validate_evidence(path):
+    """schema-check with the tooling venv's jsonschema when both are present (harness error otherwise)"""
+    schema = "/root/.vp/EVIDENCE.schema.json"
+    import shutil
+    if not os.path.exists(schema) or shutil.which("python3-vt") is None:
+        return
+    code = ("import json,sys,jsonschema; jsonschema.validate(json.load(open(sys.argv[1])), json.load(open(sys.argv[2])))")
+    p = subprocess.run(["python3-vt", "-c", code, path, schema], capture_output=True, text=True)
+    if p.returncode != 0:
+        raise RuntimeError("evidence file %s does not validate: %s" % (path, p.stderr[-800:]))
 
 
 def report(pid, viols, known, spec_name, tier):
